@@ -12,6 +12,18 @@ CHECKS = {
          'Every string over a 16-character markup alphabet up to length 5 (quick) / 6 (thorough) is tokenised by the real iter_xml under the concatenation/contiguity monitor (exhaustive within the bound); ~11k (quick) / ~190k (thorough) generated statement-free documents are compiled and rendered by the real engine and compared with themselves. Held = no observed execution violated the invariant; nothing is claimed beyond the explored strings and documents.',
          'Trusted: CPython, the document generator (it excludes template-active constructs by construction), the rule that ParseError / undefined-prefix rejections are not judged.',
          'DESIGN.md §3 C03'),
+ 'C06': ('by-construction+event-log',
+         'runtime oracle: generated part lists rendered by the real engine, output compared with the by-construction expectation and the recorded evaluation log (unique-id recording callable) with the expected log',
+         'exploration',
+         '8 000 (quick) / 128 000 (thorough) generated documents of nested elements with interpolation switches, each with several regions (text, both attribute quotings, comments of all three flavours, CDATA) built from hostile literal runs and ${expr} parts whose expressions are rich in braces, quotes and $; expected value of every expression from plain Python eval; evaluation order and non-evaluation in switched-off regions observed through the event log. Held = every observed rendering and log matched.',
+         'Trusted: Python eval as the reference for Python expressions; the soundness argument for by-construction delimiting (generated expressions are complete and bracket-balanced, DESIGN §3 C06); escaping rules of C02; generator exclusions listed in the evidence rule.',
+         'DESIGN.md §3 C06'),
+ 'C20': ('by-construction',
+         'runtime oracle: generated text-mode sources rendered by the real PageTextTemplate / PageTextTemplateFile and compared with the by-construction expectation; monitor on the real text tokenizer',
+         'exploration',
+         '19 200 (quick) / 320 000 (thorough) generated text templates over a markup-hostile alphabet (including sources beginning with "<", tag-like, tal:-like, comment/CDATA/PI-like runs) with ${expr} parts from the brace/quote-rich grammar and values containing markup, bytes, None, objects; one in eight also through the file-based class in utf-8 and latin-1 (bytes result compared). Held = all observed outputs equal the expectation.',
+         'Trusted: Python eval; newline normalisation expected as for C03 (outside XML mode); ambiguous inputs (literal "${", odd "$" run directly before "${") are not generated.',
+         'DESIGN.md §3 C20'),
 }
 NOT_YET = {}
 
